@@ -95,6 +95,16 @@ Fixpoint expr_ok (e : sexpr) : bool :=
              end)
   end.
 
+Definition declared_field (tyname : string) (case : option string) (fld : string) : bool :=
+  match resolve p t tyname with
+  | Some (SymType td) =>
+    match option_map snd (find (fun cs => bool_decide (fst cs = from_option id "Default"%string case)) (td_cases td)) with
+    | Some decl => match find (fun kv => bool_decide (fst kv = fld)) decl with Some _ => true | None => false end
+    | None => false
+    end
+  | _ => false
+  end.
+
 (** Identifier::is_resolved followed through the copies kept in the symbols of locals and
     inputs (what lowering will walk); [d] as in Lower.lower_expr *)
 Fixpoint ty_has_custom (ty : sty) : bool :=
@@ -127,8 +137,11 @@ Fixpoint deep (fuel : nat) (d : nat) (e : sexpr) {struct fuel} : bool :=
       negb (d =? 0)%nat && deep f d o
       && (match field_type p (target_type p t d o) fld with Some _ => true | None => deep f d (SId fld) end)
     | SIndex o idx => deep f d o && deep f d idx
-    | SStruct _ _ fields spread =>
+    | SStruct tyname case fields spread =>
       negb (d =? 0)%nat && forallb (fun kv => deep f d (snd kv)) fields && dopt spread
+      (* a field name that is not a field of the case denotes whatever the enclosing scope
+         binds it to, and that definition is followed too *)
+      && forallb (fun kv => if declared_field tyname case (fst kv) then true else deep f d (SId (fst kv))) fields
     | SListE xs => forallb (deep f d) xs
     | SMapE kvs => forallb (fun kv => deep f d (fst kv) && deep f d (snd kv)) kvs
     | SAnyAssetE a b c => deep f d a && deep f d b && deep f d c
